@@ -17,13 +17,13 @@ theorem idle_period_value : idleNs = 5000 * 1000000 := by decide
     begun and not exited. -/
 theorem active_count_exact (s : State) (h : Reachable s) (hd : s.dropped = false) :
     s.active = count s (fun p => isLive p && !(match p with | .starting _ => true | _ => false)) := by
-  sorry
+  exact (inv3_reachable h).act hd
 
 /-- A worker waits without a time limit only among the first `MIN_THREADS`: in every reachable
     state, for any burst history, at most `MIN_THREADS` workers are in an untimed wait. -/
 theorem untimed_waiters_bounded (s : State) (h : Reachable s) (hd : s.dropped = false) :
     count s isUntimedWaiting ≤ minThreads := by
-  sorry
+  exact (inv3_reachable h).unt hd
 
 /-- Hence: in every reachable state in which every worker is idle and no timed wait is pending
     (all idle periods have run out), the number of live worker threads is at most `MIN_THREADS` —
@@ -31,23 +31,43 @@ theorem untimed_waiters_bounded (s : State) (h : Reachable s) (hd : s.dropped = 
 theorem idle_pool_at_baseline (s : State) (h : Reachable s) (hd : s.dropped = false)
     (hq : ∀ p ∈ s.workers, p = .exited ∨ p = .waiting none) :
     count s isLive ≤ minThreads := by
-  sorry
+  have hb := untimed_waiters_bounded s h hd
+  have he : s.workers.filter isLive = s.workers.filter isUntimedWaiting := by
+    apply List.filter_congr
+    intro p hp
+    rcases hq p hp with rfl | rfl <;> rfl
+  simpa [count, he] using hb
 
 /-- a surplus worker whose idle period ran out exits, if nothing is queued. -/
 theorem timed_out_worker_exits (s : State) (w d : Nat) (hp : phaseOf s w = .waiting (some d))
     (hw : w < s.workers.length) (hd : d ≤ s.now) (he : s.pending = []) :
     ∃ s1 s2, step s (.wake w true) = some s1 ∧ step s1 (.look w) = some s2 ∧ phaseOf s2 w = .exited := by
-  sorry
+  have hp1 : phaseOf { s with workers := s.workers.set w (.woken true) } w = .woken true :=
+    phaseOf_setPhase_self (s := s) (.woken true) hw
+  refine ⟨_, _, step_complete (.wakeTimeout w d hp hd), step_complete (.wokenExit w hp1 he), ?_⟩
+  simp [phaseOf, List.getD, hw]
 
 /-- retirement never strands a task: a worker exits only when nothing is queued. -/
 theorem retire_no_task_lost (s s' : State) (w : Nat) (hs : step s (.look w) = some s')
     (h0 : phaseOf s w ≠ .exited) (h1 : phaseOf s' w = .exited) : s.pending = [] ∧ s'.pending = [] := by
-  sorry
+  have hw := lt_of_phaseOf_ne h0
+  have key : ∀ p, p ≠ WPhase.exited → (s.workers.set w p).getD w .exited ≠ .exited := by
+    intro p hp; simpa [List.getD, hw] using hp
+  cases step_sound hs with
+  | wokenExit _ hph hp => exact ⟨hp, hp⟩
+  | seekTake _ k rest hph hp => exact absurd h1 (key _ (by simp))
+  | seekWaitU _ hph hp ha => exact absurd h1 (key _ (by simp))
+  | seekWaitT _ hph hp ha => exact absurd h1 (key _ (by simp))
+  | wokenTake _ k b rest hph hp => exact absurd h1 (key _ (by simp))
+  | wokenWaitU _ hph hp ha => exact absurd h1 (key _ (by simp))
+  | wokenWaitT _ hph hp ha => exact absurd h1 (key _ (by simp))
 
 /-- after the pool is dropped every idle worker is woken and every later wait is timed. -/
 theorem drop_wakes_everybody (s s' : State) (hs : step s .dropPool = some s') :
     count s' isWaiting = 0 ∧ s'.dropped = true := by
-  sorry
+  simp only [step, Option.some.injEq] at hs
+  subst hs
+  exact ⟨filter_dropMap_waiting _, rfl⟩
 
 /-! the accept loop and server drop (M7) -/
 open TH.Lts.Server in
@@ -56,20 +76,26 @@ open TH.Lts.Server in
     set every further `accepted` step is followed by `exited` before any other accept. -/
 theorem accept_loop_stops (ls : List SLabel) (s : SState) (h : srun {} ls = some s) (hf : s.flag = true) :
     s.acceptsAfterFlag ≤ 1 := by
-  sorry
+  have hi := sinv_of_srun h
+  have _ := hf
+  rcases hi.b with h0 | ⟨h1, _⟩ <;> omega
 
 open TH.Lts.Server in
 /-- requests already handed to the application keep their own handle on the connection's writer:
     dropping the server never disables answering them. -/
 theorem handed_out_still_answerable (ls : List SLabel) (s : SState) (h : srun {} ls = some s) (r : Nat)
     (hr : r ∈ s.handedOut) : (sstep s (.answer r)).isSome = true := by
-  sorry
+  have _ := h
+  simp [sstep, hr]
 
 open TH.Lts.Server in
 /-- once the accept thread has exited the listener is closed and stays closed: no connection is
     accepted any more. -/
 theorem no_accept_after_exit (ls : List SLabel) (s : SState) (h : srun {} ls = some s)
     (he : s.pc = .exited) : s.listenerOpen = false ∧ ∀ c, sstep s (.accepted c) = none := by
-  sorry
+  have hi := sinv_of_srun h
+  refine ⟨hi.c he, ?_⟩
+  intro c
+  simp [sstep, he]
 
 end TH.Props.C20
